@@ -5,6 +5,8 @@ package main
 
 import (
 	"fmt"
+	"os"
+	"time"
 	"go/constant"
 	"go/token"
 	"go/types"
@@ -93,6 +95,19 @@ type Interp struct {
 	modelsHit map[string]int
 	nMerged   int
 	curInstr  ssa.Instruction
+	regions   map[*ssa.If]*regionInfo
+	skipModel string
+	notes     map[string]Value
+	pcs       []pcEntry
+	pcByVar   map[int32][]int
+	model     map[string]uint64 // concrete assignment satisfying the path condition (if modelOK)
+	modelOK   bool
+	evalMemo  map[*Term]uint64
+	newModels []map[string]uint64
+	nEvalHit, nEnumHit, nRepairHit int
+	pcGround  []int
+	pcByRoot  map[int32][]int
+	ufParent  map[int32]int32
 	nOpaque, nAsserts, nProved int
 	allocBound func(size *Term)
 	inInit    bool
@@ -100,124 +115,159 @@ type Interp struct {
 	ufAxioms  []*Term
 }
 
+type pcEntry struct {
+	t    *Term
+	vars []int32
+}
+
+// assertPC adds a constraint to the path condition. Constraints are kept in the engine and sent
+// with each query; only those sharing variables (transitively) with the query are sent
+// (constraint independence).
 func (it *Interp) assertPC(t *Term) {
 	if t.IsTrue() {
 		return
 	}
-	it.solver.Assert(it.ctx, t)
-}
-
-// branch decides a symbolic condition, forking (by queuing the alternative prefix) when both
-// outcomes are feasible under the current path condition.
-func (it *Interp) branch(c *Term) bool {
-	if c.IsConst() {
-		return c.k == 1
-	}
-	if it.inInit {
-		unsupported("symbolic branch during package initialisation")
-	}
-	cx := it.ctx
-	if it.pos < len(it.prefix) {
-		d := it.prefix[it.pos]
-		it.pos++
-		it.decisions = append(it.decisions, d)
-		if d.B {
-			it.assertPC(c)
-		} else {
-			it.assertPC(cx.Not(c))
-		}
-		return d.B
-	}
-	it.pos++
-	it.nQueries++
-	r1, _ := it.solver.Check(cx, c, false, nil)
-	if r1 == "unsat" {
-		it.decisions = append(it.decisions, Decision{B: false})
-		it.assertPC(cx.Not(c))
-		return false
-	}
-	it.nQueries++
-	r2, _ := it.solver.Check(cx, cx.Not(c), false, nil)
-	if r2 == "unsat" {
-		it.decisions = append(it.decisions, Decision{B: true})
-		it.assertPC(c)
-		return true
-	}
-	if r1 == "unknown" || r2 == "unknown" {
-		it.sawUnknown = true
-	}
-	alt := append(append([]Decision(nil), it.decisions...), Decision{B: false})
-	it.newWork = append(it.newWork, alt)
-	it.decisions = append(it.decisions, Decision{B: true})
-	it.assertPC(c)
-	return true
-}
-
-// assume restricts the path; an infeasible assumption ends the path silently.
-func (it *Interp) assume(c *Term) {
-	if c.IsTrue() {
+	if t.op == OpAnd {
+		it.assertPC(t.args[0])
+		it.assertPC(t.args[1])
 		return
 	}
-	if c.IsFalse() {
-		panic(abortErr{"infeasible", "assumption false"})
-	}
-	if it.pos >= len(it.prefix) {
-		it.nQueries++
-		r, _ := it.solver.Check(it.ctx, c, false, nil)
-		if r == "unsat" {
-			panic(abortErr{"infeasible", "assumption infeasible"})
-		}
-		if r == "unknown" {
-			it.sawUnknown = true
+	if t.op == OpEq && t.args[0].w > 0 {
+		if t.args[1].IsConst() {
+			it.ctx.LearnEq(t.args[0], t.args[1])
+		} else if t.args[0].IsConst() {
+			it.ctx.LearnEq(t.args[1], t.args[0])
 		}
 	}
-	it.assertPC(c)
+	vs := it.ctx.varsOf(t)
+	idx := len(it.pcs)
+	it.pcs = append(it.pcs, pcEntry{t, vs})
+	if len(vs) == 0 {
+		it.pcGround = append(it.pcGround, idx)
+		return
+	}
+	for _, v := range vs {
+		it.pcByVar[v] = append(it.pcByVar[v], idx)
+	}
+	r := it.ufFind(vs[0])
+	for _, v := range vs[1:] {
+		r = it.ufUnion(r, it.ufFind(v))
+	}
+	it.pcByRoot[r] = append(it.pcByRoot[r], idx)
 }
 
-// concretize picks a concrete value for t, forking over all feasible values.
-func (it *Interp) concretize(t *Term) uint64 {
-	if t.IsConst() {
-		return t.k
-	}
-	if t.w > 64 {
-		unsupported("concretize wide term")
-	}
-	cx := it.ctx
-	for n := 0; n < 1024; n++ {
-		if it.pos < len(it.prefix) {
-			d := it.prefix[it.pos]
-			it.pos++
-			it.decisions = append(it.decisions, d)
-			eq := cx.Eq(t, cx.BV(d.V, t.w))
-			if d.B {
-				it.assertPC(eq)
-				return d.V
-			}
-			it.assertPC(cx.Not(eq))
-			continue
-		}
-		it.pos++
-		it.nQueries++
-		r, vals := it.solver.Check(cx, nil, true, []*Term{t})
-		if r != "sat" || vals == nil || vals[0] == nil {
-			if r == "unsat" {
-				panic(abortErr{"infeasible", "concretize: path infeasible"})
-			}
-			panic(abortErr{"unknown", "concretize: solver unknown"})
-		}
-		v := vals[0].Uint64()
-		eq := cx.Eq(t, cx.BV(v, t.w))
-		it.nQueries++
-		r2, _ := it.solver.Check(cx, cx.Not(eq), false, nil)
-		if r2 != "unsat" {
-			alt := append(append([]Decision(nil), it.decisions...), Decision{B: false, V: v})
-			it.newWork = append(it.newWork, alt)
-		}
-		it.decisions = append(it.decisions, Decision{B: true, V: v})
-		it.assertPC(eq)
+func (it *Interp) ufFind(v int32) int32 {
+	p, ok := it.ufParent[v]
+	if !ok {
+		it.ufParent[v] = v
 		return v
 	}
-	panic(abortErr{"limit", "concretize: too many values"})
+	if p == v {
+		return v
+	}
+	r := it.ufFind(p)
+	it.ufParent[v] = r
+	return r
+}
+
+func (it *Interp) ufUnion(a, b int32) int32 {
+	if a == b {
+		return a
+	}
+	if len(it.pcByRoot[a]) < len(it.pcByRoot[b]) {
+		a, b = b, a
+	}
+	it.ufParent[b] = a
+	it.pcByRoot[a] = append(it.pcByRoot[a], it.pcByRoot[b]...)
+	delete(it.pcByRoot, b)
+	return a
+}
+
+// relevant returns the constraints of the path condition that can influence extra.
+func (it *Interp) relevant(extra *Term, full bool) []*Term {
+	var out []*Term
+	if full || it.cfg.noIndep {
+		for _, e := range it.pcs {
+			out = append(out, e.t)
+		}
+		return out
+	}
+	for _, i := range it.pcGround {
+		out = append(out, it.pcs[i].t)
+	}
+	if extra == nil {
+		// satisfiability of the whole path condition
+		for _, e := range it.pcs {
+			if len(e.vars) > 0 {
+				out = append(out, e.t)
+			}
+		}
+		return out
+	}
+	seen := map[int32]bool{}
+	for _, v := range it.ctx.varsOf(extra) {
+		r := it.ufFind(v)
+		if seen[r] {
+			continue
+		}
+		seen[r] = true
+		for _, i := range it.pcByRoot[r] {
+			out = append(out, it.pcs[i].t)
+		}
+	}
+	return out
+}
+
+func (it *Interp) check(extra *Term, full, wantModel bool, q []*Term, more func([]*big.Int, func([]string) []*big.Int)) (string, []*big.Int) {
+	it.nQueries++
+	ex := extra
+	var pcs []*Term
+	if len(q) > 0 && !full {
+		pcs = it.relevantMulti(extra, q)
+	} else {
+		pcs = it.relevant(extra, full)
+	}
+	t0 := time.Now()
+	r, vals := it.solver.CheckEval(it.ctx, pcs, ex, wantModel, q, more)
+	if d := time.Since(t0); d > 2*time.Second && os.Getenv("GOSYM_SLOW") != "" {
+		where := ""
+		if it.curInstr != nil {
+			where = it.prog.Fset.Position(it.curInstr.Pos()).String()
+		}
+		es := "nil"
+		if extra != nil {
+			es = extra.String()
+		}
+		fmt.Fprintf(os.Stderr, "SLOW %.1fs %s pcs=%d/%d at %s: %s\n", d.Seconds(), r, len(pcs), len(it.pcs), where, es)
+	}
+	return r, vals
+}
+
+func (it *Interp) relevantMulti(extra *Term, q []*Term) []*Term {
+	var out []*Term
+	for _, i := range it.pcGround {
+		out = append(out, it.pcs[i].t)
+	}
+	seen := map[int32]bool{}
+	addVars := func(t *Term) {
+		for _, v := range it.ctx.varsOf(t) {
+			r := it.ufFind(v)
+			if seen[r] {
+				continue
+			}
+			seen[r] = true
+			for _, i := range it.pcByRoot[r] {
+				out = append(out, it.pcs[i].t)
+			}
+		}
+	}
+	if extra != nil {
+		addVars(extra)
+	}
+	for _, t := range q {
+		addVars(t)
+	}
+	return out
 }
 
 func (it *Interp) concInt(v Value) int {
@@ -378,7 +428,7 @@ func (it *Interp) callSSA(caller *frame, fn *ssa.Function, args []Value, env []V
 		it.modelsHit["stub:"+name]++
 		return h(it, caller, args, fn)
 	}
-	if h, ok := models[name]; ok {
+	if h, ok := models[name]; ok && name != it.skipModel && !it.cfg.noModel[name] {
 		it.modelsHit[name]++
 		return h(it, caller, args, fn)
 	}
@@ -420,6 +470,14 @@ func (it *Interp) callSSA(caller *frame, fn *ssa.Function, args []Value, env []V
 		it.runFrame(fr)
 	}
 	return fr.result
+}
+
+// callSSABody interprets fn's body even if a model is registered for it.
+func (it *Interp) callSSABody(caller *frame, fn *ssa.Function, args []Value) Value {
+	old := it.skipModel
+	it.skipModel = fnName(fn)
+	defer func() { it.skipModel = old }()
+	return it.callSSA(caller, fn, args, nil, nil)
 }
 
 func (it *Interp) poisonFor(fn *ssa.Function, why string) Value {
@@ -465,8 +523,8 @@ func (it *Interp) runFrame(fr *frame) {
 		}
 		// phis are evaluated in parallel on block entry
 		nPhi := 0
-		if fr.skipPhis > 0 {
-			nPhi = fr.skipPhis
+		if fr.skipPhis != 0 {
+			nPhi = max(fr.skipPhis, 0)
 			fr.skipPhis = 0
 		} else {
 			var vals []Value
@@ -559,7 +617,7 @@ func (it *Interp) visit(fr *frame, instr ssa.Instruction) int {
 	case *ssa.UnOp:
 		fr.env[in] = it.unop(fr, in)
 	case *ssa.BinOp:
-		fr.env[in] = it.binop(in.Op, in.X.Type(), it.get(fr, in.X), it.get(fr, in.Y))
+		fr.env[in] = it.canon(it.binop(in.Op, in.X.Type(), it.get(fr, in.X), it.get(fr, in.Y)))
 	case *ssa.Call:
 		fr.env[in] = it.doCall(fr, &in.Call, in)
 	case *ssa.ChangeInterface:
@@ -567,7 +625,7 @@ func (it *Interp) visit(fr *frame, instr ssa.Instruction) int {
 	case *ssa.ChangeType:
 		fr.env[in] = it.get(fr, in.X)
 	case *ssa.Convert:
-		fr.env[in] = it.conv(in.Type(), in.X.Type(), it.get(fr, in.X))
+		fr.env[in] = it.canon(it.conv(in.Type(), in.X.Type(), it.get(fr, in.X)))
 	case *ssa.MakeInterface:
 		fr.env[in] = Iface{T: in.X.Type(), V: it.get(fr, in.X)}
 	case *ssa.Extract:
